@@ -935,6 +935,10 @@ def fixed_width_binning(
         result._force_bin_existence(
             [np.min(data), np.max(data)], includes_right_edge=includes_right_edge
         )
+    if result.bin_count and not np.all(np.diff(result.numpy_bins) > 0):
+        raise ValueError(
+            f"Bin width {result.bin_width} is below the floating-point resolution of the binned range."
+        )
     return result
 
 
